@@ -284,7 +284,3 @@ def run(ctx: core.Ctx) -> core.Report:
             rep.sample({"timings": tm.tokens(), "plan": plan, "fault_window": fault})
     return rep
 
-
-def replay(ctx, data):
-    print(data)
-    return 0
